@@ -35,14 +35,21 @@ Print Assumptions C07_keyed_sort_without_tiebreak_refuted.
 (* (b) order-irrelevance where the code does not sort: same children per namespace, same multiset of generated
    items, whatever the iteration order of namespace_index / _nested_namespaces *)
 Theorem C07_tree_children_order_irrelevant :
-  forall e I p c, In c (nested e I p) <-> In c (ns_index I) /\ is_child p c = true.
+  forall sf e I p c, In c (nested sf e I p) <-> In c (ns_index I) /\ is_child p c = true.
 Proof. exact nested_children. Qed.
 Print Assumptions C07_tree_children_order_irrelevant.
 
 Theorem C07_generation_order_irrelevant :
-  forall e1 e2 c I, Permutation (gen_order e1 c I) (gen_order e2 c I).
+  forall sf e1 e2 c I, Permutation (gen_order sf e1 c I) (gen_order sf e2 c I).
 Proof. exact gen_order_perm. Qed.
 Print Assumptions C07_generation_order_irrelevant.
+
+(* since 9b93945 get_nested_namespaces() is sorted by the attribute Namespace.__eq__ compares: the generation ORDER itself
+   (not only the multiset) is the same in every environment -- stated for the regenerated facts *)
+Theorem C07_generation_order_env_indep :
+  forall e1 e2 c I, gen_order gen_src_facts e1 c I = gen_order gen_src_facts e2 c I.
+Proof. intros. apply gen_order_env_indep. vm_compute. reflexivity. Qed.
+Print Assumptions C07_generation_order_env_indep.
 
 Theorem C07_unique_hit_search_order_irrelevant :
   forall (A : Type) (p : A -> bool) l1 l2, Permutation l1 l2 ->
@@ -102,19 +109,17 @@ Proof.
 Qed.
 Print Assumptions C07_run_env_indep.
 
-(* Python target: clock and cwd are irrelevant; the absolute location is not (F-PY-PICKLEPATH, see the refutation).
-   The premise on the generation order is there because the real `pickle` filter breaks the [render] signature in a
-   second way the model does not express: it snapshots memo caches of shared pydsdl objects, i.e. process state left
-   by the files generated before (known finding F-PY-PICKLESTATE, found by the paired runs).  With the same
-   generation order that state is the same; in the model the premise is not even needed. *)
+(* Python target: clock, hash order and cwd are irrelevant; the absolute location is not (F-PY-PICKLEPATH, see the
+   refutation).  The pickle also snapshots process state left by the files generated before it (C10: F-PY-PICKLE-MEMO);
+   for C07 that only mattered while the generation order followed the hash seed (F-PY-PICKLESTATE, fixed by 9b93945):
+   C07_generation_order_env_indep now gives the same order in every environment. *)
 Theorem C07_run_env_indep_py_partial :
   forall (B : Type) (render : option audit -> cfg -> item -> list (list str) -> B) (c : cfg) (I : list tydecl) (e1 e2 : env),
     c_embed_audit c = false -> c_lang c = LPy -> e_abs e1 = e_abs e2 ->
-    gen_order e1 c I = gen_order e2 c I ->
     NoDup (out_paths B gen_src_facts gen_sites render e1 c I) ->
     forall p, files B gen_src_facts gen_sites render e1 c I p = files B gen_src_facts gen_sites render e2 c I p.
 Proof.
-  intros B render c I e1 e2 Ha Hl Habs _. apply run_env_indep_same_location; [exact Ha | exact C07_src_facts_ok | | exact Habs].
+  intros B render c I e1 e2 Ha Hl Habs. apply run_env_indep_same_location; [exact Ha | exact C07_src_facts_ok | | exact Habs].
   rewrite Hl. exact C07_py_clean_but_pickle.
 Qed.
 Print Assumptions C07_run_env_indep_py_partial.
@@ -170,8 +175,8 @@ Print Assumptions C07_unsorted_includes_refuted.
 
 Theorem C07_unsorted_namespace_iteration_refuted :
   exists I e1 e2 p,
-    files _ facts_all_true tbl_nsiter render0 e1 (mk_cfg LPy false) I p
-    <> files _ facts_all_true tbl_nsiter render0 e2 (mk_cfg LPy false) I p.
+    files _ facts_nested_unsorted tbl_nsiter render0 e1 (mk_cfg LPy false) I p
+    <> files _ facts_nested_unsorted tbl_nsiter render0 e2 (mk_cfg LPy false) I p.
 Proof. exact unsorted_namespace_iteration_refuted. Qed.
 Print Assumptions C07_unsorted_namespace_iteration_refuted.
 
@@ -207,7 +212,7 @@ Example C07_premise_satisfiable :
 Proof. exact ex_paths_nodup. Qed.
 
 Example C07_orders_really_differ :
-  gen_order env_a (mk_cfg LPy false) ex_inputs <> gen_order env_c (mk_cfg LPy false) ex_inputs.
+  gen_order facts_nested_unsorted env_a (mk_cfg LPy false) ex_inputs <> gen_order facts_nested_unsorted env_c (mk_cfg LPy false) ex_inputs.
 Proof. exact ex_orders_differ. Qed.
 
 Example C07_premise_env_independent :
